@@ -466,14 +466,42 @@ pub fn run_one_vt(seed: u64) -> Outcome {
     o
 }
 
+/// E-T: the same scenario on a multi-thread runtime (sleeps are real milliseconds) with H1 noise.
+pub fn run_one_th(seed: u64, rt: &tokio::runtime::Runtime) -> Outcome {
+    let mut pr = Prng::new(seed ^ 0x77);
+    let intensity = *pr.pick(&[0u32, 30, 60]);
+    crate::th::begin(seed, intensity);
+    let trace = Arc::new(Trace::new());
+    let (_f, mut desc) = rt.block_on(scenario_body(seed, trace.clone(), true));
+    crate::th::end();
+    let recs = trace.snapshot();
+    let mut o = evaluate(&recs, &trace, false, &[], false);
+    desc.push(format!("th intensity={intensity}"));
+    o.desc = desc;
+    // children killed by the subject's exit finish asynchronously on other workers: a leak is only
+    // reported if it persists (a true leak is permanent, so waiting cannot hide it)
+    crate::th::wait_until(10_000, || vt::global_leaks().is_empty());
+    for l in vt::global_leaks() {
+        o.violations.push(("leak".into(), l, "leak".into()));
+    }
+    for (loc, msg) in crate::take_foreign_panics() {
+        o.violations.push(("foreign-panic".into(), format!("{loc}: {msg}"), format!("foreign-panic {loc}")));
+    }
+    o
+}
+
 pub fn run(args: &Args, rep: &mut Report) {
     let seeds: Vec<u64> = match args.replay {
         Some(s) => vec![s],
         None => args.indices().map(|i| args.scenario_seed(i)).collect(),
     };
+    let rt = if args.engine == "th" { Some(crate::th::runtime(3)) } else { None };
     for seed in seeds {
         crate::watch_begin(seed);
-        let o = run_one_vt(seed);
+        let o = match &rt {
+            Some(rt) => run_one_th(seed, rt),
+            None => run_one_vt(seed),
+        };
         crate::watch_end();
         rep.scenario(o.nontrivial, o.sig);
         rep.count("events_observed", o.recs.len() as u64);
